@@ -134,6 +134,12 @@ func (cc *checkCtx) runRefute(u *Unit) *Unit {
 	u2 := NewUnit(cc.p, u.Name, u.Fn, u.C)
 	u2.refute = true
 	if err := u2.start(); err == nil {
+		if cc.tier != "thorough" {
+			// the exact exploration only ever adds refutations: a third of the unit budget
+			if d := time.Now().Add(cc.p.UnitTimeout / 3); d.Before(u2.deadline) {
+				u2.deadline = d
+			}
+		}
 		func() {
 			defer func() {
 				if r := recover(); r != nil {
@@ -790,7 +796,16 @@ func matchKnown(known []KnownFinding, prop, ob string) *KnownFinding {
 func (cc *checkCtx) decideFailure(rec *obRecord, outDir string) {
 	anySat := false
 	allUnsat := true
+	started := time.Now()
 	for i, f := range rec.o.Failures {
+		if i > 0 && !anySat && cc.tier != "thorough" && time.Since(started) > 2*cc.raceTmo {
+			// quick tier: the failing paths of one obligation are tried one after the other
+			// until one gives a model; after two full time-outs the rest is left untried
+			// (an obligation that passed on the unchanged tree and fails now is reported
+			// either way, with or without a model)
+			allUnsat = false
+			break
+		}
 		name := fmt.Sprintf("%s__p%d", rec.o.Name, i)
 		vals := append([]string(nil), f.Values...)
 		seen := map[string]bool{}
